@@ -655,6 +655,35 @@ Section Cells.
     | _, _ => False
     end.
 
+  (* out_channels: every parameter block that carries the channel axis is `cf_channels` wide
+     (init_modules allocates them so) *)
+  Definition channels_ok (c : config S) : Prop :=
+    let wide := fun (r : list R) => length r = cf_channels S c in
+    match cf_enc S c with
+    | ELinear _ w b => Forall wide w /\ Forall wide b
+    | EStack _ => True
+    | EExcel _ w1 b1 w2 b2 => Forall wide w1 /\ Forall wide b1 /\ Forall wide w2 /\ Forall wide b2
+    | EPeriodic _ _ _ => True
+    | EBucket _ _ b => Forall wide b
+    | EEmbedding _ t => Forall wide t
+    | EBags _ _ ts => Forall (Forall wide) ts
+    | ELinEmb _ _ b => Forall wide b
+    | ETimestamp _ _ _ _ b => Forall wide b
+    end.
+
+  (* batch size of an encoder input *)
+  Definition input_rows (x : input S) : nat :=
+    match x with
+    | InNum _ m => length m | InIdx _ m => length m | InBag _ m => length m
+    | InTime _ m => length m | InEmb _ m => length m
+    end.
+
+  (* a tensor of shape [b, n, ch] *)
+  Definition shape_is {A} (b n ch : nat) (o : list (mat A)) : Prop :=
+    length o = b /\ Forall (fun row => length row = n /\ Forall (fun v => length v = ch) row) o.
+  Definition shape_isb {A} (b n ch : nat) (o : list (mat A)) : bool :=
+    (length o =? b) && forallb (fun row => (length row =? n) && forallb (fun v => length v =? ch) row) o.
+
   Definition select_rows (x : input S) (idx : list nat) : option (input S) :=
     match x with
     | InNum _ m => option_map (InNum S) (tgather m idx)
@@ -813,12 +842,15 @@ Definition zeros_ok (strict : bool) (zm zi : mat bool) : bool :=
   if strict then bmat_eqb zm zi
   else list_eqb (list_eqb (fun a b => implb a b)) zm zi.
 
-Definition check_enc (strict : bool) (c : config QS) (x : input QS) (raised : bool) (zeros : mat bool)
-           (perts : list (input QS * list (nat * nat))) (imputed : option (input QS)) : bool :=
+Definition check_enc (strict : bool) (c : config QS) (x : input QS) (raised : bool) (shape : nat * nat * nat)
+           (zeros : mat bool) (perts : list (input QS * list (nat * nat))) (imputed : option (input QS)) : bool :=
   match pre_post QS c x with
   | None => raised
   | Some o =>
-      negb raised && zeros_ok strict (zero_pattern o) zeros &&
+      negb raised &&
+      (* the implementation's output shape [B, C, channels] is the model's *)
+      shape_isb (fst (fst shape)) (snd (fst shape)) (snd shape) o &&
+      zeros_ok strict (zero_pattern o) zeros &&
       forallb (fun p => match pre_post QS c (fst p) with
                         | Some o' => subset_cells (snd p) (allowed_cells c x (fst p) o o')
                         | None => false
